@@ -51,6 +51,14 @@ def model_file(trace, total, content=None):
         size = _const_int(args[0]) if args else None
         if args and size is None and not (isinstance(args[0], Const) and args[0].v is None):
             raise ShapeError(f"read size is not a constant: {args[0]!r}")
+        fault = getattr(trace, "fault", None)
+        if fault is not None and fault.get("kind") == "read":
+            # an injected transient failure: the request with this running number fails once with a connection reset
+            fault["seen"] = fault.get("seen", 0) + 1
+            if fault["seen"] - 1 == fault["at"] and not fault.get("fired"):
+                fault["fired"] = True
+                trace.events.append(("failed-read", state["pos"], size))
+                raise _Raise("ConnectionResetError: [Errno 104] Connection reset by peer", ["ConnectionResetError", "ConnectionError", "OSError", "Exception", "BaseException", "object"])
         avail = max(total - state["pos"], 0)
         got = avail if size is None or size < 0 else min(size, avail)
         trace.events.append(("read", state["pos"], size, got))
